@@ -246,6 +246,7 @@ pub const GO_NORMAL_POSITIONS: &[(&str, &str)] = &[
     ("K+P v k", "position fen 8/8/4k3/8/8/4K3/4P3/8 w - - 0 1"),
     ("blocked pawn chains (fortress)", "position fen 8/8/4k3/p2p2p1/P2P2P1/4K3/8/8 w - - 0 1"),
     ("italian middlegame after two moves", "position fen r1bq1rk1/ppp2ppp/2np1n2/2b1p3/2B1P3/2PP1N2/PP3PPP/RNBQ1RK1 w - - 0 7 moves b1d2 a7a6"),
+    ("single legal reply", "position fen 7k/8/8/8/8/8/6PP/r5K1 w - - 0 1"),
 ];
 
 /// First command of a history (sets whatever state a `go` can leave behind); each terminates on
@@ -422,7 +423,150 @@ pub fn replay_go(cmds: &str) -> i32 {
     }
 }
 
-pub fn run(which: &'static str, tier: &str, seed: u64, out: &str) {
+
+// ---------------------------------------------------------------------------------------------
+// C07, real clock. Everything above runs on the node clock, which answers should_stop() before
+// the code that reads the real clock is reached; a defect in that code (a poll schedule, a
+// carried-over allowance) is invisible there. This part talks to the hooks-off binary in real
+// time: after an earlier command (none, a fixed-depth search, a timed search that expired, a
+// timed search of a forced move) a budgeted go must be answered within budget + REAL_ALLOWANCE.
+// The allowance is deliberately coarse (scheduling noise on a busy machine must never be a
+// verdict): only overruns of seconds are reported.
+
+pub const REAL_ALLOWANCE_MS: u64 = 2500;
+
+pub const REAL_PRIORS: &[(&str, &[&str])] = &[
+    ("nothing before", &[]),
+    ("a fixed-depth search of the start position", &["position startpos", "go depth 6"]),
+    ("a fixed-depth search of a middlegame", &["position fen r1bq1rk1/ppp2ppp/2np1n2/2b1p3/2B1P3/2PP1N2/PP3PPP/RNBQ1RK1 w - - 0 7", "go depth 5"]),
+    ("a timed search that ran out of time", &["position startpos", "go movetime 300"]),
+    ("a timed search of a forced move", &["position fen 7k/8/8/8/8/8/6PP/r5K1 w - - 0 1", "go movetime 4000"]),
+];
+
+pub const REAL_TARGETS: &[&str] = &[
+    "position startpos moves e2e4 e7e5",
+    "position fen 8/8/4k3/8/8/4K3/4P3/8 w - - 0 1",
+    "position fen 6k1/PPPPP3/8/8/8/8/ppppp3/6K1 w - - 0 1",
+    "position fen 7k/8/8/8/8/8/6PP/r5K1 w - - 0 1 moves g1f2 a1a2",
+];
+
+/// (command, budget ms)
+pub const REAL_GOS: &[(&str, u64)] = &[("go movetime 150", 150), ("go wtime 8000 btime 8000 winc 0 binc 0", 120)];
+
+/// Runs one real-clock history; returns the latency of the budgeted go in ms (None = no answer).
+pub fn real_history(rep: &Report, exe: &str, prior: &[&str], target: &str, go: &str, budget: u64) -> Option<u64> {
+    use crate::blackbox::Session;
+    use std::time::Duration;
+    let mut steps: Vec<String> = prior.iter().map(|s| s.to_string()).collect();
+    steps.push(target.to_string());
+    steps.push(go.to_string());
+    let text = steps.join(" | ");
+    let args = vec!["c07-real".to_string(), "--prior".into(), prior.join("|"), "--target".into(), target.to_string(), "--go".into(), go.to_string(), "--budget".into(), budget.to_string()];
+    let mut s = match Session::start(exe) {
+        Ok(s) => s,
+        Err(e) => {
+            eprintln!("MACHINERY ERROR: {}", e);
+            std::process::exit(2);
+        }
+    };
+    for c in prior {
+        s.send(c);
+    }
+    s.send(target);
+    s.send("isready");
+    if s.wait_for("readyok", Duration::from_secs(180)).is_none() {
+        rep.violation(format!("C07 real-clock [{}] prior-no-answer", text), format!("[{}]: the commands before the timed go were not finished after 180 s of real time", text), args, J::Null);
+        return None;
+    }
+    let t0 = std::time::Instant::now();
+    s.send(go);
+    let horizon = Duration::from_millis(budget + REAL_ALLOWANCE_MS + 10_000);
+    match s.wait_for("bestmove", horizon) {
+        Some((_, t)) => {
+            let ms = t.duration_since(t0).as_millis() as u64;
+            if ms > budget + REAL_ALLOWANCE_MS {
+                rep.violation(
+                    format!("C07 real-clock [{}] late", text),
+                    format!("[{}]: {:?} has a budget of {} ms but was answered after {} ms of real time (allowance {} ms)", text, go, budget, ms, REAL_ALLOWANCE_MS),
+                    args,
+                    J::Null,
+                );
+            }
+            Some(ms)
+        }
+        None => {
+            rep.violation(
+                format!("C07 real-clock [{}] late", text),
+                format!("[{}]: {:?} has a budget of {} ms but was not answered within {} ms of real time", text, go, budget, horizon.as_millis()),
+                args,
+                J::Null,
+            );
+            None
+        }
+    }
+}
+
+fn real_clock_part(rep: &Report, exe: &str) -> (J, u64) {
+    let mut jobs: Vec<(usize, usize, usize)> = Vec::new();
+    for p in 0..REAL_PRIORS.len() {
+        for t in 0..REAL_TARGETS.len() {
+            for g in 0..REAL_GOS.len() {
+                jobs.push((p, t, g));
+            }
+        }
+    }
+    // half the cores: the engines under test need real CPU time of their own
+    let res: Vec<Option<u64>> = {
+        let old = std::env::var("VERIF_THREADS").ok();
+        std::env::set_var("VERIF_THREADS", (crate::par::threads() / 2).max(1).to_string());
+        let r = par_map(&jobs, |&(p, t, g)| {
+            if rep.saturated() {
+                return None;
+            }
+            real_history(rep, exe, REAL_PRIORS[p].1, REAL_TARGETS[t], REAL_GOS[g].0, REAL_GOS[g].1)
+        });
+        match old {
+            Some(v) => std::env::set_var("VERIF_THREADS", v),
+            None => std::env::remove_var("VERIF_THREADS"),
+        }
+        r
+    };
+    let answered = res.iter().filter(|r| r.is_some()).count();
+    let worst = res.iter().filter_map(|r| *r).max().unwrap_or(0);
+    eprintln!("[C07] real clock: {} histories, {} answered, slowest answer {} ms ({:.1}s)", jobs.len(), answered, worst, rep.elapsed());
+    (
+        J::obj()
+            .set("binary", "hooks off (release)")
+            .set("histories", jobs.len())
+            .set("answered", answered)
+            .set("slowest_answer_ms", worst)
+            .set("allowance_ms", REAL_ALLOWANCE_MS)
+            .set("earlier_commands", REAL_PRIORS.iter().map(|p| p.0.to_string()).collect::<Vec<_>>())
+            .set("positions", REAL_TARGETS.iter().map(|p| p.to_string()).collect::<Vec<_>>())
+            .set("timed_commands", REAL_GOS.iter().map(|g| g.0.to_string()).collect::<Vec<_>>())
+            .set("rule", "history = earlier commands; position; isready (wait for readyok); budgeted go, timed from sending it to its bestmove line in real time; late = more than budget + allowance. Coarse on purpose: the node-clock parts decide punctuality to the node, this part only that the code reading the real clock is not broken by seconds"),
+        jobs.len() as u64,
+    )
+}
+
+pub fn replay_real(exe: &str, prior: &str, target: &str, go: &str, budget: u64) -> i32 {
+    let rep = Report::new("C07", "quick", 0);
+    let pv: Vec<&str> = if prior.is_empty() { vec![] } else { prior.split('|').collect() };
+    let ms = real_history(&rep, exe, &pv, target, go, budget);
+    let v = rep.violations.lock().unwrap();
+    for x in v.iter() {
+        // the measured time differs from run to run; the verdict line must not
+        println!("REPLAY-VIOLATION {} :: late", x.sig);
+    }
+    if v.is_empty() {
+        println!("REPLAY-OK C07 real clock (answered: {})", ms.is_some());
+        0
+    } else {
+        1
+    }
+}
+
+pub fn run(which: &'static str, tier: &str, seed: u64, out: &str, engine_plain: Option<&str>) {
     let rep = Report::new(which, tier, seed);
     let thorough = tier == "thorough";
     let mg = MoveGenerator::new();
@@ -577,6 +721,15 @@ pub fn run(which: &'static str, tier: &str, seed: u64, out: &str) {
             }
         }
     }
+    let mut real_part = J::Null;
+    if which == "C07" && !rep.saturated() {
+        if let Some(exe) = engine_plain {
+            let (part, n) = real_clock_part(&rep, exe);
+            real_part = part;
+            evaluations += n;
+            nontrivial += n;
+        }
+    }
     let mut go_part = J::Null;
     if which == "C07" && !rep.saturated() {
         let (part, judged, hits) = go_histories(&rep, thorough);
@@ -588,6 +741,7 @@ pub fn run(which: &'static str, tier: &str, seed: u64, out: &str) {
         .set("evaluations", evaluations)
         .set("distinct_nontrivial", nontrivial)
         .set("go_command_histories", go_part)
+        .set("real_clock", real_part)
         .set("rule", "a case = (position, depth, deadline node N) [C06 also (N1, N2)]: fresh Searcher, search interrupted exactly at node N under the node clock; non-trivial = the deadline actually fell inside the search; the budgeted go commands of the command-level histories count as cases too")
         .set("overrun_limit_nodes", OVERRUN_LIMIT)
         .set("max_nodes_after_deadline_seen", max_overrun)
